@@ -3,9 +3,9 @@ CONSTANTS
   Long = {"long-string-number-1", "long-string-number-2"}
   Short = {"s"}
   MaxSlots = 4
-  MaxMods = 5
+  MaxMods = 4
   WorkUnits = {1, 2, 9}
-  MaxCounter = 2
+  MaxCounter = 1
 CONSTRAINT Bounded
 INVARIANTS Stable Injective ModulePartsPermanent TempNamesDistinct InternOK CursorOK MarkedSinceOK ReclaimedOK
 PROPERTIES NoLiveReclaim FreshAfterReclaim DeadStaysDead
